@@ -33,7 +33,13 @@ type FrameEvent struct {
 	StreamID uint64
 	Length   uint32 // length field of the header
 	Payload  []byte // copy of the payload bytes
+	Injected bool   // written by the harness (Mesh.Inject), not by agent From
 }
+
+// Filter decides, for a frame written by an agent, whether the link drops it
+// (true) instead of delivering it. Used to let the harness stand in for an
+// endpoint behind a link.
+type Filter func(FrameEvent) (drop bool)
 
 // Tap receives every frame. It is called synchronously in the writer's
 // goroutine before the bytes become readable at the other end.
@@ -99,7 +105,7 @@ type frameParser struct {
 	buf []byte
 }
 
-func (fp *frameParser) feed(p []byte, emit func(typ, flags uint8, length uint32, sid uint64, payload []byte)) {
+func (fp *frameParser) feed(p []byte, emit func(typ, flags uint8, length uint32, sid uint64, payload []byte, raw []byte)) {
 	fp.buf = append(fp.buf, p...)
 	for {
 		if len(fp.buf) < 14 {
@@ -111,7 +117,9 @@ func (fp *frameParser) feed(p []byte, emit func(typ, flags uint8, length uint32,
 		}
 		payload := make([]byte, length)
 		copy(payload, fp.buf[14:14+length])
-		emit(fp.buf[0], fp.buf[1], length, binary.BigEndian.Uint64(fp.buf[6:14]), payload)
+		raw := make([]byte, 14+length)
+		copy(raw, fp.buf[:14+length])
+		emit(fp.buf[0], fp.buf[1], length, binary.BigEndian.Uint64(fp.buf[6:14]), payload, raw)
 		fp.buf = fp.buf[14+length:]
 	}
 }
@@ -130,13 +138,34 @@ func (s *memStream) Read(p []byte) (int, error) { return s.rd.read(p) }
 func (s *memStream) Write(p []byte) (int, error) {
 	s.wmu.Lock()
 	defer s.wmu.Unlock()
-	s.parser.feed(p, func(typ, flags uint8, length uint32, sid uint64, payload []byte) {
-		s.mesh.emit(FrameEvent{From: s.from, To: s.to, Type: typ, Flags: flags, StreamID: sid, Length: length, Payload: payload})
+	var werr error
+	s.parser.feed(p, func(typ, flags uint8, length uint32, sid uint64, payload []byte, raw []byte) {
+		ev := FrameEvent{From: s.from, To: s.to, Type: typ, Flags: flags, StreamID: sid, Length: length, Payload: payload}
+		s.mesh.emit(ev)
+		if s.mesh.drops(ev) {
+			return
+		}
+		if err := s.wr.write(raw); err != nil {
+			werr = err
+		}
 	})
-	if err := s.wr.write(p); err != nil {
-		return 0, err
+	if werr != nil {
+		return 0, werr
 	}
 	return len(p), nil
+}
+
+// inject writes a harness-made frame into this direction of the link.
+func (s *memStream) inject(typ, flags uint8, sid uint64, payload []byte) error {
+	raw := make([]byte, 14+len(payload))
+	raw[0], raw[1] = typ, flags
+	binary.BigEndian.PutUint32(raw[2:6], uint32(len(payload)))
+	binary.BigEndian.PutUint64(raw[6:14], sid)
+	copy(raw[14:], payload)
+	s.wmu.Lock()
+	defer s.wmu.Unlock()
+	s.mesh.emit(FrameEvent{From: s.from, To: s.to, Type: typ, Flags: flags, StreamID: sid, Length: uint32(len(payload)), Payload: append([]byte(nil), payload...), Injected: true})
+	return s.wr.write(raw)
 }
 
 func (s *memStream) StreamID() uint64 { return 0 }
@@ -212,6 +241,10 @@ func (t *memTransport) Dial(ctx context.Context, addr string, opts transport.Dia
 	a := &memConn{dialer: false, used: make(chan struct{}), closed: make(chan struct{}),
 		local: memAddr(fmt.Sprintf("mem:%d", t.to)), remote: memAddr(fmt.Sprintf("mem:%d", t.from)),
 		st: &memStream{rd: ab, wr: ba, from: t.to, to: t.from, mesh: t.mesh}}
+	t.mesh.lmu.Lock()
+	t.mesh.links[[2]int{t.from, t.to}] = d.st
+	t.mesh.links[[2]int{t.to, t.from}] = a.st
+	t.mesh.lmu.Unlock()
 	go func() {
 		actx, cancel := context.WithTimeout(context.Background(), 30*time.Second)
 		defer cancel()
@@ -237,9 +270,38 @@ type Node struct {
 }
 
 type Mesh struct {
-	Nodes []*Node
-	tmu   sync.RWMutex
-	tap   Tap
+	Nodes  []*Node
+	tmu    sync.RWMutex
+	tap    Tap
+	filter Filter
+	lmu    sync.Mutex
+	links  map[[2]int]*memStream
+}
+
+func (m *Mesh) drops(ev FrameEvent) bool {
+	m.tmu.RLock()
+	f := m.filter
+	m.tmu.RUnlock()
+	return f != nil && f(ev)
+}
+
+// SetFilter installs (or removes, with nil) the link filter.
+func (m *Mesh) SetFilter(f Filter) {
+	m.tmu.Lock()
+	m.filter = f
+	m.tmu.Unlock()
+}
+
+// Inject delivers a harness-made frame to agent `to` as if agent `from` had
+// written it on their link.
+func (m *Mesh) Inject(from, to int, typ, flags uint8, sid uint64, payload []byte) error {
+	m.lmu.Lock()
+	st := m.links[[2]int{from, to}]
+	m.lmu.Unlock()
+	if st == nil {
+		return fmt.Errorf("no link %d->%d", from, to)
+	}
+	return st.inject(typ, flags, sid, payload)
 }
 
 func (m *Mesh) emit(ev FrameEvent) {
@@ -261,7 +323,7 @@ func (m *Mesh) SetTap(t Tap) {
 // New creates n agents (not yet connected). configure may adjust the default
 // configuration of agent i before it is constructed.
 func New(n int, scratch string, configure func(i int, cfg *config.Config)) (*Mesh, error) {
-	m := &Mesh{}
+	m := &Mesh{links: map[[2]int]*memStream{}}
 	for i := 0; i < n; i++ {
 		dir, err := os.MkdirTemp(scratch, fmt.Sprintf("agent%d-", i))
 		if err != nil {
